@@ -25,12 +25,14 @@ Local Open Scope Z_scope.
    are covered by the byte-for-byte and value correspondence and by the monitor on every run,
    not by this theorem. The same holds for STATEFUL VARIABLES ($=): [loop_free_block] also excludes
    them; Spec.spec_calls / Wasm.wasm_calls (sequences of invocations, host table of
-   stl/stateful) are compared with the real tool chain on every run.
+   stl/stateful) are compared with the real tool chain on every run; likewise GLOBAL CONSTANTS
+   and CALLS of helper functions with a default value ([pure_expr] excludes them, [f_virt f = []]
+   says there is no helper).
    The full statement (without the two guard hypotheses) is FALSE: see the _refuted theorems. *)
 Theorem C19_compile_correct_partial : forall (fo : float_ops) (f : func) (args : list (val fo)),
   check_func f = true -> locals_ok f = true ->
   Forall2 (vok fo) (f_params f) args ->
-  loop_free_block (f_body f) = true ->
+  loop_free_block (f_body f) = true -> f_virt f = [] ->
   static_flags f = [] -> dyn_flags fo f args = [] ->
   exists w, compile f = Some w /\
     match spec_run fo f args with
@@ -47,7 +49,7 @@ Print Assumptions C19_compile_correct_partial.
    after return/unreachable, a result on every path). *)
 Theorem C19_validates_partial : forall f,
   check_func f = true -> locals_ok f = true -> loop_free_block (f_body f) = true ->
-  static_flags f = [] ->
+  f_virt f = [] -> static_flags f = [] ->
   exists w, compile f = Some w /\ validate w = true.
 Proof. exact validates_partial. Qed.
 Print Assumptions C19_validates_partial.
